@@ -292,6 +292,8 @@ def pyjelly_pairs(ctx, rng):
                 results = None
                 break
             hint = delimited_jelly_hint(data[:3])
+            if hint == delimited and not all(delimited_jelly_hint(data[:k]) == delimited for k in (4, 16, len(data)) if len(data) >= k):
+                hint = not delimited             # the hint given more than three bytes of the stream says something else
             try:
                 first = wire.dec_stream(data, delimited)[0]
                 optlen = first["row_offsets"][0][1] - first["row_offsets"][0][0]
@@ -531,6 +533,14 @@ def run_shard(ctx):
         got = delimited_jelly_hint(hdr)
         ctx.observe("headers-checked")
         ctx.observe(f"class:{desc}")
+        if got == mode and (hdr[1] + hdr[2]) % 5 == 0:
+            # the hint looks at the stream's FIRST bytes: handing it more of the stream (a peeked buffer, the whole payload)
+            # must not change what it says
+            longer = [delimited_jelly_hint(hdr + tail) for tail in (b"\x00", b"\x0a\x0a\x0a\x0a", bytes(61))]
+            ctx.observe("headers-checked-with-a-longer-buffer")
+            if any(x != mode for x in longer):
+                got = not mode
+                desc = desc + " (hint given 4 / 7 / 64 bytes of the stream instead of 3)"
         if got != mode:
             ctx.violation({"clause": "misclassified", "header": hdr.hex(), "mode": "delimited" if mode else "non-delimited",
                            "summary": f"{desc}: header {hdr.hex()} of a {'delimited' if mode else 'non-delimited'} stream "
@@ -569,7 +579,8 @@ def replay(w: dict):
     if "header" in w and w.get("clause") == "misclassified" and "cfg" not in w:
         hdr = bytes.fromhex(w["header"])
         want = w["mode"] == "delimited"
-        if delimited_jelly_hint(hdr) != want:
+        if delimited_jelly_hint(hdr) != want or (len(hdr) == 3 and any(
+                delimited_jelly_hint(hdr + tail) != want for tail in (b"\x00", b"\x0a\x0a\x0a\x0a", bytes(61)))):
             return {"clause": "misclassified", "summary": f"header {w['header']} still misclassified"}
         return None
     if "cfg" in w:
